@@ -5,6 +5,6 @@ package mc
 const HaveMapSeam = false
 
 func MapSeamSet(mode uint32, target uintptr, alt uintptr) {}
-func MapSeamReset()                                      {}
-func MapSeamSites() ([]uintptr, []uint32)                { return nil, nil }
-func SiteName(pc uintptr) string                         { return "" }
+func MapSeamReset()                                       {}
+func MapSeamSites() ([]uintptr, []uint32)                 { return nil, nil }
+func SiteName(pc uintptr) string                          { return "" }
